@@ -54,7 +54,7 @@ LEVELS = {
     },
     'C10': {
         'category': 'other',
-        'text': 'Deductive part (shared with C16): the CSS structure scan reports only well-formed ranges and delimiters (callback contract proved for all inputs after four repairs), match()/balanced_outward() build well-formed ranges from them including the delimiter == -1 case, inner_range/split_value are proved. Innermost-ness and the balanced lists against ground truth are a bounded stand-in (generated nested stylesheets, every position).',
+        'text': 'Deductive part (shared with C16): the CSS structure scan reports only well-formed ranges and delimiters (callback contract proved for all inputs after four repairs), match()/balanced_outward() build well-formed ranges from them including the delimiter == -1 case, inner_range/split_value are proved. The callback contract also fixes the token types, their delimiters and their order (ghost state), from which match() is proved to return a range that strictly contains the position, a rule that ends with its closing brace with the body between the braces, and a declaration whose value lies inside it. Innermost-ness and the balanced lists against ground truth are a bounded stand-in (generated nested stylesheets, every position).',
         'design_ref': 'DESIGN.md section 7 (C10)',
         'note': 'Trusted: pyvc encoding. Known findings KF-C10-P (delimiters inside parentheses) and KF-C10-L (leading selector colons) are genuine defects recorded, not repaired.',
         'technique': TECH + '; bounded stand-in: generated stylesheets with ground truth, all positions + exhaustive tiny documents',
@@ -62,19 +62,19 @@ LEVELS = {
     },
     'C17': {
         'category': 'other',
-        'text': 'Deductive part (shared with C16/C09/C10): the scanners, the attribute parser, get_attributes range shifting and split_value that the action helpers are built from are proved. The helpers themselves (get_open_tag, select_item_*, get_css_section) are so far covered by the bounded stand-in against generated documents with recorded attribute / class-token / declaration / value-token ranges.',
+        'text': 'Deductive part (shared with C16/C09/C10): the scanners, the attribute parser, get_attributes range shifting and split_value that the action helpers are built from are proved. The helpers themselves are proved for all inputs against range contracts: get_open_tag returns a tag of the source that strictly contains the position, carries its name, with every attribute range shifted by the tag start exactly once and inside the tag; value_range drops exactly the quotes or braces; class tokens are the maximal white-space-free words; every range of select_item_html is non-empty and inside the tag; get_css_section returns a rule around the position with the braces right outside its body and, on request, declarations whose name, value, tokens, before and after lie in order inside the body; select_item_css items and ranges lie inside the source on the requested side of the position. Which tag / rule / item is chosen among several (innermost, next, previous) and exact agreement with recorded ground truth are the bounded stand-in: generated documents with recorded attribute / class-token / declaration / value-token ranges, every position.',
         'design_ref': 'DESIGN.md section 7 (C17)',
         'note': 'Trusted: pyvc encoding; CPython for the bounded part.',
         'technique': TECH + '; bounded stand-in: generated HTML/CSS documents with ground truth for every range the helpers report',
-        'clauses': 'P: shared scanner/matcher functions; B: html-actions, css-actions, css-section-unterminated, tiny-exhaustive families.',
+        'clauses': 'P: shared scanner/matcher functions, action_utils utils/html/css (19 functions and 7 closures); B: html-actions, css-actions, css-section-unterminated, tiny-exhaustive families.',
     },
     'C20': {
         'category': 'other',
-        'text': 'Proved for arbitrary dictionaries: merged_data yields, for every key, the value of the most specific layer defining it in the documented order (six abstract layers), layers not mentioning a key leave it untouched, an unknown syntax falls back to the remaining layers, and nothing but the fresh result is written. Complete finite-domain clauses on the real Config: every known syntax x every subset of the five overriding layers, documented defaults. Observation through expand() is a bounded stand-in.',
+        'text': 'Proved for arbitrary dictionaries: merged_data yields, for every key, the value of the most specific layer defining it in the documented order (six abstract layers), layers not mentioning a key leave it untouched, an unknown syntax falls back to the remaining layers, and nothing but the fresh result is written; Config.__init__ builds every field from those layers. Complete finite-domain clauses on the real Config: every known syntax x every subset of the five overriding layers, documented defaults. Observation through expand() is a bounded stand-in.',
         'design_ref': 'DESIGN.md section 7 (C20)',
         'note': 'Trusted: CPython for enumeration.',
         'technique': TECH + '; complete enumeration of the layer-subset grid on the real Config; bounded stand-in through expand()',
-        'clauses': 'P: config.merged_data; F: config-layers, unknown-syntax, documented-defaults; B: expand-layers, random-layers.',
+        'clauses': 'P: config.merged_data, Config.__init__; F: config-layers, unknown-syntax, documented-defaults; B: expand-layers, random-layers.',
     },
     'C01': {
         'category': 'other',
@@ -118,11 +118,11 @@ LEVELS = {
     },
     'C08': {
         'category': 'other',
-        'text': 'Whole-history statement, reduced in DESIGN.md to frame/ownership obligations. Proved: config.merged_data writes nothing but its fresh result (built-in tables and caller dictionaries untouched, arbitrary dictionaries). Histories are a bounded stand-in: sequences of 2-4 calls (shared cache, shared config object, failing calls) followed by a probe compared with the same probe in a fresh interpreter; growth of module-level containers, default arguments and live emmet objects is monitored.',
+        'text': 'Whole-history statement, reduced in DESIGN.md to frame/ownership obligations. Proved: config.merged_data writes nothing but its fresh result (built-in tables and caller dictionaries untouched, arbitrary dictionaries); Config.__init__ never writes the dictionary of the caller; markup.parse puts the text entry of the user_config of the caller back on every normal and exceptional exit (try/finally modelled). Histories are a bounded stand-in: sequences of 2-4 calls (shared cache, shared config object, failing calls) followed by a probe compared with the same probe in a fresh interpreter; growth of module-level containers, default arguments and live emmet objects is monitored.',
         'design_ref': 'DESIGN.md section 7 (C08)',
         'note': 'Trusted: CPython for the bounded part; the independent tag parser / executable spec of the bounded oracle.',
         'technique': TECH + '; bounded stand-in: call histories vs fresh-interpreter reference, retention monitor',
-        'clauses': 'P: merged_data frame; B: shared-cache, shared-config-object, independent-calls, random-histories, no-retention.',
+        'clauses': 'P: merged_data frame, Config.__init__, markup.parse restores text on every exit; B: markup-shared-cache, raise-inside-resolution, shared-cache, shared-config-object, independent-calls, random-histories, no-retention.',
     },
     'C11': {
         'category': 'other',
